@@ -51,7 +51,11 @@ type CScenario struct {
 	Ops   map[string]COp  `json:"ops"`
 	Sched [][]string      `json:"sched"`
 	Free  bool            `json:"free"`
-	Raw   json.RawMessage `json:"-"`
+	// CloseWaits: the Close method of every instance waits until no resolution issued on its scope by another
+	// goroutine is still in flight (user code such as a worker pool's Close waiting for its workers); only
+	// meaningful for free-running programs
+	CloseWaits bool            `json:"closewaits,omitempty"`
+	Raw        json.RawMessage `json:"-"`
 }
 
 func goid() int64 {
@@ -312,6 +316,7 @@ func concScenario(sc *CScenario, run int) (orderDrift bool) {
 	runNo = run
 	R = newRun(&sc.Cfg)
 	R.concurrent = true
+	R.closeWaits = sc.Free && sc.CloseWaits
 	S = newSched()
 	var cfgRaw struct {
 		Cfg json.RawMessage `json:"cfg"`
